@@ -431,6 +431,30 @@ func e2eInjectWorker(args []string) error {
 		sum.Stats["garbage"]++
 	}
 
+	// (4) volume: one datagram is harmless, the same one many times over on one connection must be as well - heartbeats and
+	// session requests of a peer that never associates (nothing on its connection is started that would consume what the
+	// handlers queue), then of the same peer once associated
+	if p.Shard%3 == 1 && !w.Died {
+		for i := 0; i < 130 && !w.Died; i++ {
+			w.Heartbeat("f")
+		}
+
+		for i := 0; i < 40 && !w.Died; i++ {
+			cp += 3
+			ue++
+			w.Estab("f", simpleSession(cp, ue, 1))
+		}
+
+		w.Assoc("f")
+
+		for i := 0; i < 130 && !w.Died; i++ {
+			w.Heartbeat("f")
+		}
+
+		w.Release("f")
+		sum.Stats["volume"]++
+	}
+
 	sum.Scenarios = 1
 	sum.Lines, sum.Steps, sum.Accepted, sum.Died = w.Lines, w.Steps, w.Accepted, false
 
@@ -441,6 +465,7 @@ func e2eInjectWorker(args []string) error {
 func C01(c *core.Ctx) {
 	c.SetCov("rule", "every single IE-level mutation (drop, duplicate, empty, retype, truncate, IPv6-only, inner-length corruption, reorder, zero-fill) at every position of the IE tree of every "+
 		"message type the agent dispatches, truncated / malformed flow descriptions, seeded double mutations and garbage datagrams, injected in the listed association/session states of a target peer; "+
+		"a third of the shards run with the heartbeat timer on and end with a volume phase (130 heartbeats and 40 session requests of a peer that never associates, 130 heartbeats once associated); "+
 		"after each datagram a heartbeat on the same peer and a complete establish/delete on another association are executed and judged by the reference specification; "+
 		"evaluations = script steps, distinct_nontrivial = injected datagrams")
 	c.Assume("IE trees are mutated independently of go-pfcp's message structs and re-encoded with consistent outer lengths; byte-level garbage is generated by the harness")
